@@ -10,6 +10,7 @@ import (
 
 // runE1 executes one rpc-sim run inside the current synctest bubble.
 func runE1(spec RunSpec, ch *Choices) *RunResult {
+	newSentinel()
 	res := &RunResult{Index: spec.Index, Seed: spec.Seed, Engine: "rpc-sim", Mode: spec.Prop, Plan: spec.Params["plan"]}
 	x := &e1{spec: spec, res: res, ch: ch}
 	x.mode = e1ModeFor(spec.Prop)
@@ -173,7 +174,8 @@ func runE1(spec RunSpec, ch *Choices) *RunResult {
 		} else if !clientsDone {
 			res.probe("probe_skipped_client_blocked")
 			x.checkNextRPCStuck()
-			if faultFree && connAlive && handlersDone {
+			// (full-duplex programs can deadlock under back-pressure by design, O1)
+			if faultFree && connAlive && handlersDone && !x.anyDuplex() {
 				x.viol("client-stuck", "client call blocked for ever on a healthy connection: "+x.stuckSummary(), fmt.Sprint(x.blockedCalls(), x.libCensus()))
 			}
 		} else {
@@ -473,4 +475,13 @@ func (x *e1) lateOps() bool {
 		}
 	})
 	return true
+}
+
+func (x *e1) anyDuplex() bool {
+	for _, r := range x.prog.RPCs {
+		if r.Duplex {
+			return true
+		}
+	}
+	return false
 }
